@@ -102,6 +102,9 @@ def gamma1(tier, seed):
         for ops in (["ah"], ["10h"], ["bh", "b"], ["a", "ch"]):
             pat = [item("mov", ops), "a"]
             out.append({"id": f"g1/hexh/{ftag(mf,of)}/{ops}", "doc": doc_of(pat, mf, of), "feature": "hexh_operand"})
+            # regression guard for the documented rewriting itself: <hex>h must behave exactly like the name 0x<hex>
+            rew = [("0x" + o[:-1]) if o.endswith("h") else o for o in ops]
+            out.append({"id": f"g1/hexh_rewritten/{ftag(mf,of)}/{ops}", "doc": doc_of(pat, mf, of), "pattern": [item("mov", rew), "a"], "feature": "hexh_rewritten"})
     # integer-valued names (YAML ints) take the same path as strings
     for mf, of in FLAGS:
         pat = [{"mov": [0, "a"]}, {"add": [10]}]
@@ -197,6 +200,14 @@ def _count_perm(node):
     return 1
 
 
+def _leaves(node):
+    if isinstance(node, dict):
+        name = list(node)[0]
+        if name.startswith("$"):
+            return sum(_leaves(x) for x in node[name])
+    return 1
+
+
 def gamma3(tier, seed):
     rnd = random.Random(seed + 3)
     out = []
@@ -221,9 +232,9 @@ def gamma3(tier, seed):
     depth = 2 if tier == "quick" else 3
     for i in range(n):
         node = _nest(depth, leaves, rnd.choice([2, 2, 3]), rnd)
-        fm = _count_perm(node) > 2
+        fm = _count_perm(node) > 2 or _leaves(node) >= 5
         pat = ["a", node, "d"]
-        t = {"id": f"g3/rnd{i}/{node}", "doc": doc_of(pat, fm, fm), "feature": "ins_nested", "lemmas": ("AEM", "EA", "VAL")}
+        t = {"id": f"g3/rnd{i}/{node}", "doc": doc_of(pat, fm, fm), "feature": "ins_nested", "lemmas": ("AEM", "EA", "VAL"), "timeout_ms": 30000}
         out.append(t)
     # operand level: alternatives / orderings of operands inside one instruction
     for op in OPS3:
@@ -243,9 +254,9 @@ def gamma3(tier, seed):
     for fld, alts in (("main_reg", ["rsp", "rbp"]), ("main_reg", ["%rax", "rbx", "rcx"])):
         d = {"$deref": {fld: [{"$or": alts}], "constant_offset": "0x8"}}
         pat = [{"mov": [d, "c"]}, "d"]
-        out.append({"id": f"g3/deref_or/{alts}", "doc": doc_of(pat), "feature": "deref_or"})
+        out.append({"id": f"g3/deref_or/{alts}", "doc": doc_of(pat), "feature": "deref_or", "domain": "att_mem", "lemmas": ("AEM", "EA", "NE", "VAL")})
     d = {"$deref": {"main_reg": "rax", "register_multiplier": [{"$or": ["rbx", "rcx"]}], "constant_multiplier": 4}}
-    out.append({"id": "g3/deref_or/index", "doc": doc_of([{"lea": [d]}, "d"]), "feature": "deref_or"})
+    out.append({"id": "g3/deref_or/index", "doc": doc_of([{"lea": [d]}, "d"]), "feature": "deref_or", "domain": "att_mem", "lemmas": ("AEM", "EA", "NE", "VAL")})
     if tier == "thorough":
         # 4 children = 24 permutations
         pat = ["a", {"$and_any_order": ["b", "c", "e", "f"]}, "d"]
@@ -339,7 +350,6 @@ def gamma7(tier, seed):
             ("op2", [{"call": ["@any", "@any"]}, "ret"]),
             ("op_mixed", [{"mov": ["a", "@any"]}, "ret"]),
             ("mnem", ["@any", "ret"]),
-            ("mnem_ops", [{"@any": ["a"]}, "ret"]),
             ("lead_mnem", ["@any"]),
         ):
             for mf, of in ((False, False), (True, True)):
